@@ -286,3 +286,49 @@ def required_attr_rejects_before_writing(old: int, v: int) -> bool:
     except (TypeError, ValueError):
         return int(e.get("id")) == old and e.id == old
     return 256 <= v <= 2147483647 and int(e.get("id")) == v and e.id == v
+
+
+# ------------------------------------------------------------------ values of another Python type given to an integer type
+INT_NAMES = sorted(INT_CLASSES)
+
+
+def _is_int_literal(s):
+    if not isinstance(s, str) or not s:
+        return False
+    body = s[1:] if s[0] in "+-" else s
+    return len(body) > 0 and all(c in "0123456789" for c in body)
+
+
+@cond(timeout=300, encodes=["pptx.oxml.simpletypes:BaseSimpleType.validate_int", "pptx.oxml.simpletypes:BaseSimpleType.validate_int_in_range",
+                            "pptx.oxml.simpletypes:BaseIntType.convert_to_xml", "pptx.oxml.simpletypes:BaseSimpleType.to_xml"],
+      bound="every integer simple type (choice variable) x a value of another Python type: every float (finite, symbolic), inf, nan, "
+            "every str of length <= 2 over digits and '-', None; the value is rejected with TypeError/ValueError or what is written is an "
+            "integer literal inside the XSD range")
+def int_type_given_other_python_value(t: int, kind: int, f: float, s: str) -> bool:
+    """
+    pre: 0 <= t < len(INT_NAMES) and 0 <= kind < 5
+    pre: len(s) <= 2 and all(c in "0123456789-" for c in s)
+    post: _
+    """
+    name = choose(INT_NAMES, t)
+    cls, r = INT_CLASSES[name]
+    v = f if kind == 0 else float("inf") if kind == 1 else float("nan") if kind == 2 else s if kind == 3 else None
+    try:
+        out = cls.to_xml(v)
+    except (TypeError, ValueError):
+        return True
+    if not _is_int_literal(out):
+        detail(globals(), "%s.to_xml(%r) wrote %r", name, v, out)
+        return False
+    return _lo(r) <= int(out) <= _hi(r)
+
+
+@cond(expect="refute", timeout=120, twin_of="int_type_given_other_python_value")
+def int_type_given_other_python_value_twin(f: float) -> bool:
+    """
+    post: _
+    """
+    return not (f == 1371600.0)
+
+
+LAST_DETAIL = None
